@@ -257,9 +257,19 @@ package fr
 //@ props C15 C16
 //@ prelude frint
 //@ ensures result == z && I(*z) < R_MOD
-//@ ensures (I(*z) * W4) % R_MOD == I(old(*z)) % R_MOD
 //@ ensures I(*z) == fval(I(old(*z)))
 //@ modifies *z
+
+//@ func Element.Cmp
+//@ props C15
+//@ prelude frint
+//@ option opaque fval
+//@ ensures result == (fval(I(*z)) > fval(I(*x)) ? 1 : (fval(I(*z)) < fval(I(*x)) ? 0 - 1 : 0))
+
+//@ func Element.LexicographicallyLargest
+//@ props C15
+//@ prelude frint
+//@ ensures result == (fval(I(*z)) > (R_MOD - 1) / 2)
 
 //@ func Element.Add
 //@ props C15
